@@ -6,8 +6,9 @@ write goes to a cell allocated by the same call, or is the first fill of the rec
 filled cell is never written; (ii) the only package-level cache cell (gem.Zero's) starts filled
 (regenerated fact) and is therefore never written; (iii) structural facts regenerated from the
 typed source: the package-level variables are exactly gem.Zero and manip.spaceCollapser, no method
-of package rosed or gem has a pointer receiver, and the complete list of assignments that go through
-a pointer or into a caller-visible slice element is the one below (none in package rosed).
+of package rosed or gem has a pointer receiver, and every assignment that goes through a pointer or into a
+caller-visible slice element stores into a gem.String's cache cell (inside a function whose pointer-level
+behaviour is proved equal to layer H) or into a tb.Block's own line list (none in package rosed).
 What is NOT a Lean theorem: the step from (i)–(iii) to the Go memory model. The model cannot exhibit
 interleavings; the check therefore also runs the real code from 8 goroutines under the Go race
 detector and compares parallel with sequential results.
@@ -15,6 +16,7 @@ detector and compares parallel with sequential results.
 import RosedVerif.Model.InstAFacts
 import RosedVerif.Heap.Histories
 import RosedVerif.Gen.Facts
+import RosedVerif.Heap.WriteSites
 namespace RosedVerif.Props
 open RosedVerif RosedVerif.H
 
@@ -50,27 +52,28 @@ theorem C20_pointer_receivers :
     Gen.pointerReceiverMethods = [("tb", "Block.Append"), ("tb", "Block.AppendBlock"), ("tb", "Block.AppendEmpty"),
       ("tb", "Block.Apply"), ("tb", "Block.Remove"), ("tb", "Block.Set")] := by decide
 
-/-- every assignment in the library that goes through a pointer or into an element of a parameter /
-receiver / package-level slice: only gem.String's own cache cells (`gc`) and tb.Block's own line list -/
-theorem C20_heap_writes : Gen.heapWrites = [
-    ("gem", "String.Add", "ptr", "*r2.gc"),
-    ("gem", "String.CharAt", "ptr", "*str.gc"),
-    ("gem", "String.GraphemeIndexes", "ptr", "*str.gc"),
-    ("gem", "String.Len", "ptr", "*str.gc"),
-    ("gem", "String.Reverse", "ptr", "(*reversed.gc)[revIdx]"),
-    ("gem", "String.Reverse", "ptr", "*str.gc"),
-    ("gem", "String.SetCharAt", "ptr", "*clone.gc"),
-    ("gem", "String.SetCharAt", "ptr", "*clone.gc"),
-    ("gem", "String.Sub", "ptr", "(*clone.gc)[i]"),
-    ("gem", "String.Sub", "ptr", "*clone.gc"),
-    ("gem", "String.Sub", "ptr", "*str.gc"),
-    ("tb", "Block.Append", "ptr", "tb.Lines"),
-    ("tb", "Block.Append", "ptr", "tb.Lines"),
-    ("tb", "Block.Apply", "ptr", "tb.Lines"),
-    ("tb", "Block.Remove", "ptr", "tb.Lines"),
-    ("tb", "Block.Set", "ptr", "tb.Lines[linePos]"),
-    ("tb", "Block.Swap", "elem-param", "tb.Lines[i]"),
-    ("tb", "Block.Swap", "elem-param", "tb.Lines[j]")] := by decide
+/-- every assignment in the library that goes through a pointer or into an element of a parameter / receiver /
+package-level slice (the list is regenerated from the typed source on every run) is one of two kinds
+(`H.writeSiteOK`, Heap/WriteSites.lean): in package `gem` a store into a String's cache cell (`*x.gc`, `(*x.gc)[…]`)
+inside a function whose pointer-level behaviour is the subject of the regenerated tie with layer H
+(`Gen.GemCode.tiedFunctions`: the functions harness/goheap.go translates — proved equal to layer H in heap, result and
+write events by the `gem…_regenerated` theorems, which are proof obligations of this property — and helpers inlined
+into them); in package `tb` a store into a Block's own line list inside a method of `Block`.  The sites are not
+enumerated: moving a store into a helper that is inlined back re-proves; a store anywhere else, or in a function of
+`gem` outside the tie, does not. -/
+theorem C20_heap_writes : ∀ w ∈ Gen.heapWrites, H.writeSiteOK w = true := by decide
+
+/-- the kinds are told apart correctly: the predicate rejects a store into another field, through another pointer,
+into a package-level variable, in a function outside the tie, and in another package -/
+theorem C20_heap_writes_rejects :
+    H.writeSiteOK ("gem", "String.Add", "ptr", "*r2.r") = false ∧
+    H.writeSiteOK ("gem", "String.Add", "ptr", "*p") = false ∧
+    H.writeSiteOK ("gem", "String.Add", "ptr", "Zero.gc") = false ∧
+    H.writeSiteOK ("gem", "String.Add", "elem-param", "s2.r[i]") = false ∧
+    H.writeSiteOK ("gem", "String.notInTheTie", "ptr", "*str.gc") = false ∧
+    H.writeSiteOK ("rosed", "Editor.Commit", "ptr", "*parent") = false ∧
+    H.writeSiteOK ("tb", "Block.Set", "ptr", "tb.LineSeparator") = false ∧
+    H.writeSiteOK ("manip", "Wrap", "elem-param", "lines[i]") = false := by decide
 
 /-- in particular no function of package rosed (Editor, Options, sub-editors) writes through a pointer -/
 theorem C20_rosed_writes_nothing :
